@@ -363,6 +363,13 @@ CancelBases == {Fld(VarR("@A"), "n"), Bn("*", Own("x"), Own("y")), Idx(Own("xs")
 Cancel == UNION {{Bn(op, t, e) : op \in {"=", "!=", "<", ">="}, t \in CancelOf(e)} : e \in CancelBases}
           \cup UNION {{Bn(op, e, t) : op \in {"=", ">="}, t \in CancelOf(e)} : e \in CancelBases}
           \cup UNION {{Bn(">", t, NumA("0")) : t \in CancelOf(e)} : e \in CancelBases}
+(* ---- three-operand conjunctions / disjunctions of literals and two-literal clauses over two atoms: every way in which the
+   ---- operands of a flattened chain can contradict, subsume or resolve one another ---- *)
+Lits == {Own("p"), Un("not", Own("p")), Fld(VarR("@A"), "b"), Un("not", Fld(VarR("@A"), "b"))}
+Clauses == {Bn(o, l1, l2) : o \in {"or", "and", "implies"}, l1 \in Lits, l2 \in Lits}
+Chain3(o, x, y, z) == Bn(o, Bn(o, x, y), z)
+Resolve == UNION {{Chain3(o, l1, l2, c), Chain3(o, l1, c, l2), Chain3(o, c, l1, l2), Bn(o, l1, Bn(o, l2, c))} :
+                      o \in {"and", "or"}, l1 \in Lits, l2 \in Lits, c \in Clauses}
 RandTerms == {IF i % 3 = 0 THEN RNum(RandDepth) ELSE RBool(RandDepth) : i \in 1..RandN}
 
 Members ==
@@ -385,6 +392,7 @@ Members ==
     [] Family = "loose"   -> LooseThenNarrow
     [] Family = "foldidx" -> FoldIdx
     [] Family = "cancel"  -> Cancel
+    [] Family = "resolve" -> Resolve
     [] OTHER -> {}
 
 TInit == cst \in Members
